@@ -62,7 +62,7 @@ func nsKeys(ns namer.NameSystems) string {
 
 func (g *recGen) Name() string { return g.name }
 func (g *recGen) Filter(c *generator.Context, t *types.Type) bool {
-	*g.log = append(*g.log, tag("filter", atom(g.name), num(tid(t))))
+	*g.log = append(*g.log, tag("filter", atom(g.name), ids(c.Order), num(tid(t))))
 	return g.filter[tid(t)]
 }
 func (g *recGen) Namers(c *generator.Context) namer.NameSystems {
@@ -146,7 +146,7 @@ func (t *recTarget) Path() string       { return t.path }
 func (t *recTarget) Dir() string        { return t.dir }
 func (t *recTarget) SourcePath() string { return t.dir }
 func (t *recTarget) Filter(c *generator.Context, ty *types.Type) bool {
-	*t.log = append(*t.log, tag("tfilter", num(tid(ty))))
+	*t.log = append(*t.log, tag("tfilter", ids(c.Order), num(tid(ty))))
 	return t.filter[tid(ty)]
 }
 func (t *recTarget) Header(filename string) []byte { return []byte(t.header) }
